@@ -2109,6 +2109,8 @@ fn main() {
     rep.set("confirm_runs_alone", confirm_runs);
     rep.set("confirmed_violations", confirmed);
     rep.set("known_finding_case_hits", n_known);
+    rep.set("notice_deferred_to_thorough", results.iter().map(|v| v["obs"]["notice_deferred"].as_u64().unwrap_or(0)).sum::<u64>());
+    rep.set("setup_repeats_srtp_race", results.iter().map(|v| v["setup_attempts"].as_u64().unwrap_or(1).saturating_sub(1)).sum::<u64>());
     rep.set("flaky", json!(flaky));
     rep.set("unconfirmed_after_time_cap", json!(unconfirmed));
     rep.set("unreached", json!(unreached.iter().map(|i| json!({"case": cases[*i].to_json(), "why": verdict_kinds(&results[*i]).1})).collect::<Vec<_>>()));
@@ -2126,6 +2128,9 @@ fn main() {
     rep.assume("drop: tasks holding a PeerConnection clone are cancelled first (a pending PeerConnection-level call keeps the connection alive by construction); state and reason are read through watch receivers subscribed before the drop");
     rep.assume("blocked sender: the peer is silenced with ice_transport().stop(), the sender is observed inside one send_data call for 150 ms, then close()");
     rep.assume("timeouts are shortened through RtcConfiguration (stun 0.5 s, nomination 0.8 s, ICE disconnect 1 s / failed 2 s / grace 0.3 s, SCTP RTO 0.1-1 s, sctp_max_buffered_amount 32 KiB); other values default");
+    rep.assume("quick tier: a side that never reached Connected and does not end within the ICE notice budget is bounded only by rustrtc's constant 30 s DTLS handshake timeout; the quick tier counts it (notice_deferred_to_thorough) instead of waiting, the thorough tier waits 30 s + budget");
+    rep.assume("PeerConnection::recv(), a remote track's recv() and recv() of a channel that never opened are judged once the side was ended by close()/drop or reports Closed; on a side that is only Failed they may stay pending until close()");
+    rep.assume("Srtp answerer set-up race (TransportStartFailed: Missing crypto attributes for SDES when the transport starts before set_local_description(answer); about 40 % of set-ups alone) is a connect defect outside C17: a set-up hitting it before the crash point is repeated (setup_repeats_srtp_race)");
     rep.assume("thread schedules are whatever the 2-worker runtime produces (not enumerated); peer SCTP ABORT/SHUTDOWN are exercised at transport level elsewhere");
     if outcomes.len() < 2 {
         vh::machinery_failure("fewer than 2 distinct outcomes: vacuous run");
